@@ -3,6 +3,7 @@ import VlsModel.Gen.FnSimple
 import VlsModel.Gen.FnEnforceVal
 import VlsModel.Gen.FnSimpleClose
 import VlsModel.Gen.FnChannelClose
+import VlsModel.Gen.FnCloseDecode
 import VlsModel.Lemmas.FnGen
 /-
 C07 — the epsilon comparisons of the mutual-close model (`MutualClose.outsideEps`, `minToHolder`,
@@ -392,5 +393,246 @@ example :
       = validateMutualClose exPolicy exSetup exState exArgs :=
   C07_fn_validate_mutual_close_tx exPolicy exSetup exState exArgs () () _ _ _ rfl
     (fun o h => by cases h; rfl) (fun o h => by cases h; rfl) (by decide)
+
+
+/-! ## Round 9 — `SimpleValidator::decode_and_validate_mutual_close_tx` (generated area `Gen.FnCloseDecode`)
+
+The function that decides *which* output of a supplied closing transaction is the holder's is now translated from the
+source on every run (normalisation: the `scopeguard` that only logs, the local `struct ValidateArgs` declared as a view,
+`*recomposed_tx != *tx` as the external Boolean `tx_differs`; `Rs.capture` for the two `Result`s it keeps in variables).
+Stated directly on the generated definition: **whenever it returns `Ok(closing_tx)`**, one of the two candidate readings
+of the supplied outputs (`decodeReadings`: holder-only / counterparty-only for one output, holder-first / counterparty-first
+for two; nothing else) passed `validate_mutual_close_tx` (the function tied to the model by
+`C07_fn_validate_mutual_close_tx`), the returned transaction is `ClosingTransaction::new` of exactly that reading's values
+and scripts on the channel's funding outpoint, and — when `policy-onchain-format-standard` is an error — the transaction
+built from it does not differ from the supplied one.  The likely/unlikely order only decides which reading is tried first. -/
+
+theorem bind_ok_iff {α β : Type} (x : Rs.M α) (f : α → Rs.M β) (v : β) :
+    (x >>= f) = Except.ok v ↔ ∃ a, x = Except.ok a ∧ f a = Except.ok v := by
+  cases x with
+  | ok a => simp [bind, Except.bind]
+  | error e => simp [bind, Except.bind]
+
+theorem ite_bind_join {β : Type} (c : Prop) [Decidable c] (x : Rs.M Unit) (k : Rs.M β) :
+    (if c then (x >>= fun _ => k) else k) = ((if c then x else pure ()) >>= fun _ => k) := by
+  split <;> simp [bind, Except.bind, pure, Except.pure]
+
+section Decode
+open VlsModel.Gen.FnCloseDecode
+variable {W SB OP AM DP CT TCT : Type} [DecidableEq SB]
+  (pfe : String → Bool) (toSat : AM → Nat) (master : DP)
+  (wt : Nat → Nat → Option SB → Option SB → ChannelSetup SB OP → Nat)
+  (canSpend : W → DP → SB → Option Bool) (allow : W → SB → DP → Bool) (sbNew : SB)
+  (ctNew : Nat → Nat → SB → SB → OP → CT) (trust : CT → TCT) (built : TCT → Transaction AM SB)
+  (differs : Transaction AM SB → Transaction AM SB → Bool)
+  (self : SimpleValidator) (wallet : W) (setup : ChannelSetup SB OP) (estate : EnforcementState)
+
+/-- the candidate readings -/
+def decodeReadings (tx : Transaction AM SB) (paths : List DP) : List (ValidateArgs SB DP) :=
+  match tx.output, paths with
+  | [o], p :: _ => [⟨toSat o.value, 0, some o.script_pubkey, none, p⟩, ⟨0, toSat o.value, none, some o.script_pubkey, master⟩]
+  | [o0, o1], p0 :: p1 :: _ =>
+      [⟨toSat o0.value, toSat o1.value, some o0.script_pubkey, some o1.script_pubkey, p0⟩,
+       ⟨toSat o1.value, toSat o0.value, some o1.script_pubkey, some o0.script_pubkey, p1⟩]
+  | _, _ => []
+
+def validatesR (r : ValidateArgs SB DP) : Prop :=
+  SimpleValidator.validate_mutual_close_tx pfe wt canSpend allow self wallet setup estate r.to_holder_value_sat
+    r.to_counterparty_value_sat r.holder_script r.counterparty_script r.wallet_path = Except.ok ()
+
+def recompose (r : ValidateArgs SB DP) : CT :=
+  ctNew r.to_holder_value_sat r.to_counterparty_value_sat (r.holder_script.getD sbNew) (r.counterparty_script.getD sbNew)
+    setup.funding_outpoint
+
+theorem capture_ok_ok {α : Type} (x : Rs.M α) (a : α) (h : Rs.capture x = Except.ok (Except.ok a)) : x = Except.ok a := by
+  cases x with
+  | ok v => simp [Rs.capture] at h; rw [h]
+  | error e => cases e <;> simp [Rs.capture] at h
+
+/-- the part every branch ends in: try the likely reading, then the unlikely one, recompose the good one -/
+theorem tail_ok (tx : Transaction AM SB) (ct : CT) (l u : ValidateArgs SB DP) (lrv : Except String Unit)
+    (hf : (if (match lrv with | Except.ok _ => true | Except.error _ => false) = true then
+            (do
+              (if differs (built (trust (ctNew l.to_holder_value_sat l.to_counterparty_value_sat (l.holder_script.getD sbNew)
+                    (l.counterparty_script.getD sbNew) setup.funding_outpoint))) tx = true then
+                Rs.policyErr pfe "policy-onchain-format-standard" else pure ())
+              pure (ctNew l.to_holder_value_sat l.to_counterparty_value_sat (l.holder_script.getD sbNew)
+                    (l.counterparty_script.getD sbNew) setup.funding_outpoint))
+          else (do
+            let unlikely_rv ← Rs.capture (SimpleValidator.validate_mutual_close_tx pfe wt canSpend allow self wallet setup estate
+                u.to_holder_value_sat u.to_counterparty_value_sat u.holder_script u.counterparty_script u.wallet_path)
+            if (match unlikely_rv with | Except.ok _ => true | Except.error _ => false) = true then
+              (do
+                (if differs (built (trust (ctNew u.to_holder_value_sat u.to_counterparty_value_sat (u.holder_script.getD sbNew)
+                      (u.counterparty_script.getD sbNew) setup.funding_outpoint))) tx = true then
+                  Rs.policyErr pfe "policy-onchain-format-standard" else pure ())
+                pure (ctNew u.to_holder_value_sat u.to_counterparty_value_sat (u.holder_script.getD sbNew)
+                      (u.counterparty_script.getD sbNew) setup.funding_outpoint))
+            else (do
+              let t_25 ← Rs.unwrapErr lrv
+              Rs.fail t_25))) = Except.ok ct)
+    (hc : Rs.capture (SimpleValidator.validate_mutual_close_tx pfe wt canSpend allow self wallet setup estate l.to_holder_value_sat
+            l.to_counterparty_value_sat l.holder_script l.counterparty_script l.wallet_path) = Except.ok lrv) :
+    ∃ r, (r = l ∨ r = u) ∧ validatesR pfe wt canSpend allow self wallet setup estate r ∧ ct = recompose sbNew ctNew setup r
+        ∧ (pfe "policy-onchain-format-standard" = true → differs (built (trust ct)) tx = false) := by
+  cases lrv with
+  | ok a =>
+    cases a
+    simp only [if_true] at hf
+    refine ⟨l, Or.inl rfl, capture_ok_ok _ _ hc, ?_⟩
+    by_cases hd : differs (built (trust (ctNew l.to_holder_value_sat l.to_counterparty_value_sat (l.holder_script.getD sbNew)
+                    (l.counterparty_script.getD sbNew) setup.funding_outpoint))) tx = true
+    · by_cases hp : pfe "policy-onchain-format-standard" = true
+      · simp [hd, hp, Rs.policyErr, Rs.fail, bind, Except.bind] at hf
+      · simp [hd, hp, Rs.policyErr, bind, Except.bind, pure, Except.pure] at hf
+        exact ⟨hf.symm, fun h => absurd h hp⟩
+    · simp [hd, bind, Except.bind, pure, Except.pure] at hf
+      refine ⟨hf.symm, fun _ => ?_⟩
+      rw [← hf]; simpa using hd
+  | error t =>
+    simp only [Bool.false_eq_true, if_false] at hf
+    rw [bind_ok_iff] at hf
+    obtain ⟨urv, hu, hf⟩ := hf
+    cases urv with
+    | ok a =>
+      cases a
+      simp only [if_true] at hf
+      refine ⟨u, Or.inr rfl, capture_ok_ok _ _ hu, ?_⟩
+      by_cases hd : differs (built (trust (ctNew u.to_holder_value_sat u.to_counterparty_value_sat (u.holder_script.getD sbNew)
+                      (u.counterparty_script.getD sbNew) setup.funding_outpoint))) tx = true
+      · by_cases hp : pfe "policy-onchain-format-standard" = true
+        · simp [hd, hp, Rs.policyErr, Rs.fail, bind, Except.bind] at hf
+        · simp [hd, hp, Rs.policyErr, bind, Except.bind, pure, Except.pure] at hf
+          exact ⟨hf.symm, fun h => absurd h hp⟩
+      · simp [hd, bind, Except.bind, pure, Except.pure] at hf
+        refine ⟨hf.symm, fun _ => ?_⟩
+        rw [← hf]; simpa using hd
+    | error t2 =>
+      simp [Rs.unwrapErr, Rs.fail, bind, Except.bind, pure, Except.pure] at hf
+
+end Decode
+
+section Decode2
+open VlsModel.Gen.FnCloseDecode
+variable {W SB OP AM DP CT TCT : Type} [DecidableEq SB]
+  (pfe : String → Bool) (toSat : AM → Nat) (master : DP)
+  (wt : Nat → Nat → Option SB → Option SB → ChannelSetup SB OP → Nat)
+  (canSpend : W → DP → SB → Option Bool) (allow : W → SB → DP → Bool) (sbNew : SB)
+  (ctNew : Nat → Nat → SB → SB → OP → CT) (trust : CT → TCT) (built : TCT → Transaction AM SB)
+  (differs : Transaction AM SB → Transaction AM SB → Bool)
+  (self : SimpleValidator) (wallet : W) (setup : ChannelSetup SB OP) (estate : EnforcementState)
+
+theorem C07_fn_decode_and_validate_mutual_close_tx (tx : Transaction AM SB) (paths : List DP) (ct : CT)
+    (h : SimpleValidator.decode_and_validate_mutual_close_tx pfe toSat master wt canSpend allow sbNew ctNew trust built differs
+          self wallet setup estate tx paths = Except.ok ct) :
+    ∃ r ∈ decodeReadings toSat master tx paths,
+      validatesR pfe wt canSpend allow self wallet setup estate r ∧ ct = recompose sbNew ctNew setup r
+        ∧ (pfe "policy-onchain-format-standard" = true → differs (built (trust ct)) tx = false) := by
+  unfold SimpleValidator.decode_and_validate_mutual_close_tx at h
+  simp only [ite_bind_join] at h
+  rcases tx with ⟨outs⟩
+  match outs, paths with
+  | [], _ =>
+    simp only [bind_ok_iff] at h
+    obtain ⟨_, _, _, _, _, _, _, _, _, _, _, _, h7⟩ := h
+    simp [Rs.index, Rs.panic, bind, Except.bind] at h7
+  | [o], [] =>
+    simp only [bind_ok_iff] at h
+    obtain ⟨_, _, _, h2, _⟩ := h
+    simp [Rs.assert, Rs.panic] at h2
+  | [o], [p] =>
+    simp only [bind_ok_iff] at h
+    obtain ⟨_, _, _, _, _, _, _, _, hv, _, cv, _, h7⟩ := h
+    simp only [List.length_cons, List.length_nil, Nat.zero_add, beq_self_eq_true, if_true, bind_ok_iff] at h7
+    obtain ⟨x4, e4, x5, e5, x6, e6, x8, e8, x9, e9, t24, et, lrv, hc, hf⟩ := h7
+    simp [Rs.index, pure, Except.pure] at e4 e5 e6 e8 e9
+    subst e4 e5 e6 e8 e9
+    simp only [pure, Except.pure, Except.ok.injEq] at et
+    obtain ⟨r, hr, hval, hct, hfmt⟩ := tail_ok pfe wt canSpend allow sbNew ctNew trust built differs self wallet setup estate _ ct t24.fst t24.snd lrv hf hc
+    refine ⟨r, ?_, hval, hct, hfmt⟩
+    subst et
+    simp only [decodeReadings]
+    by_cases hl : Rs.optLt cv hv = true <;> simp [hl] at hr <;> rcases hr with hr | hr <;> simp [hr]
+  | [o], _ :: _ :: _ =>
+    simp only [bind_ok_iff] at h
+    obtain ⟨_, _, _, h2, _⟩ := h
+    simp [Rs.assert, Rs.panic] at h2
+  | [o0, o1], [] =>
+    simp only [bind_ok_iff] at h
+    obtain ⟨_, _, _, h2, _⟩ := h
+    simp [Rs.assert, Rs.panic] at h2
+  | [o0, o1], [_] =>
+    simp only [bind_ok_iff] at h
+    obtain ⟨_, _, _, h2, _⟩ := h
+    simp [Rs.assert, Rs.panic] at h2
+  | [o0, o1], _ :: _ :: _ :: _ =>
+    simp only [bind_ok_iff] at h
+    obtain ⟨_, _, _, h2, _⟩ := h
+    simp [Rs.assert, Rs.panic] at h2
+  | [o0, o1], [p0, p1] =>
+    simp only [bind_ok_iff] at h
+    obtain ⟨_, _, _, _, _, _, _, _, hv, _, cv, _, h7⟩ := h
+    have hne : (([o0, o1] : List (TxOut AM SB)).length == 1) = false := by simp
+    simp only [hne, Bool.false_eq_true, if_false, bind_ok_iff] at h7
+    obtain ⟨x11, e11, x13, e13, x14, e14, x15, e15, x16, e16, x18, e18, x20, e20, x21, e21, x22, e22, x23, e23, t24, et, lrv, hc, hf⟩ := h7
+    simp [Rs.index, pure, Except.pure] at e11 e13 e14 e15 e16 e18 e20 e21 e22 e23
+    subst e11 e13 e14 e15 e16 e18 e20 e21 e22 e23
+    simp only [pure, Except.pure, Except.ok.injEq] at et
+    obtain ⟨r, hr, hval, hct, hfmt⟩ := tail_ok pfe wt canSpend allow sbNew ctNew trust built differs self wallet setup estate _ ct t24.fst t24.snd lrv hf hc
+    refine ⟨r, ?_, hval, hct, hfmt⟩
+    subst et
+    simp only [decodeReadings]
+    by_cases hl : Rs.optLt cv hv = true <;> simp [hl] at hr <;> rcases hr with hr | hr <;> simp [hr]
+  | _ :: _ :: _ :: _, _ =>
+    simp only [bind_ok_iff] at h
+    obtain ⟨_, h1, _⟩ := h
+    simp [Rs.fail] at h1
+end Decode2
+
+section DecodeCor
+open VlsModel.Gen.FnCloseDecode
+variable {W SB OP AM DP CT TCT : Type} [DecidableEq SB]
+
+/-- a closing transaction without outputs, or with more than two, is never accepted (whatever the state, the filter, the
+    wallet): there is no reading to validate -/
+theorem C07_fn_decode_only_one_or_two_outputs (pfe : String → Bool) (toSat : AM → Nat) (master : DP)
+    (wt : Nat → Nat → Option SB → Option SB → ChannelSetup SB OP → Nat) (canSpend : W → DP → SB → Option Bool)
+    (allow : W → SB → DP → Bool) (sbNew : SB) (ctNew : Nat → Nat → SB → SB → OP → CT) (trust : CT → TCT)
+    (built : TCT → Transaction AM SB) (differs : Transaction AM SB → Transaction AM SB → Bool) (self : SimpleValidator)
+    (wallet : W) (setup : ChannelSetup SB OP) (estate : EnforcementState) (tx : Transaction AM SB) (paths : List DP) (ct : CT)
+    (hlen : tx.output.length = 0 ∨ tx.output.length > 2) :
+    SimpleValidator.decode_and_validate_mutual_close_tx pfe toSat master wt canSpend allow sbNew ctNew trust built differs
+      self wallet setup estate tx paths ≠ Except.ok ct := by
+  intro h
+  obtain ⟨r, hr, _⟩ := C07_fn_decode_and_validate_mutual_close_tx pfe toSat master wt canSpend allow sbNew ctNew trust built
+    differs self wallet setup estate tx paths ct h
+  rcases tx with ⟨outs⟩
+  match outs, paths, hlen with
+  | [], _, _ => simp [decodeReadings] at hr
+  | [_], _, hl => simp at hl
+  | [_, _], _, hl => simp at hl
+  | _ :: _ :: _ :: _, _, _ => simp [decodeReadings] at hr
+
+end DecodeCor
+
+
+/-! non-vacuity: a two-output close accepted in both output orders (the second through the *unlikely* reading), and the
+    empty output list: a panic (= refusal), the `tx.output[0]` index of the source -/
+section DecodeEx
+open VlsModel.Gen.FnCloseDecode
+def dV : SimpleValidator := { policy := { epsilon_sat := 10000, min_feerate_per_kw := 253, max_feerate_per_kw := 333333 } }
+def dS : ChannelSetup Nat Nat :=
+  { is_outbound := true, channel_value_sat := 3000000, funding_outpoint := 7, holder_shutdown_script := none }
+def dE : EnforcementState :=
+  { current_holder_commit_info := some ⟨1000000, 1998000, [], []⟩,
+    current_counterparty_commit_info := some ⟨1998000, 1000000, [], []⟩ }
+def dRun (tx : Transaction Nat Nat) (paths : List Nat) : Rs.M (Nat × Nat × Nat × Nat × Nat) :=
+  SimpleValidator.decode_and_validate_mutual_close_tx (Wallet := Unit) (fun _ => true) id (0 : Nat) (fun _ _ _ _ _ => 672)
+    (fun _ _ _ => some true) (fun _ _ _ => false) (0 : Nat) (fun a b c d e => (a, b, c, d, e)) id (fun _ => tx) (fun _ _ => false)
+    dV () dS dE tx paths
+example : dRun ⟨[⟨1997000, 3⟩, ⟨1000000, 20⟩]⟩ [5, 9] = .ok (1997000, 1000000, 3, 20, 7) := by rfl
+example : dRun ⟨[⟨1000000, 20⟩, ⟨1997000, 3⟩]⟩ [9, 5] = .ok (1997000, 1000000, 3, 20, 7) := by rfl
+example : dRun ⟨[]⟩ [] = .error .panic := by rfl
+end DecodeEx
 
 end VlsModel.Props.C07Fn
